@@ -17,7 +17,7 @@ RULE_TEXT = ("C08-C: the payload class of each quoted-string recogniser denotes 
              "application of one, the error kind Incomplete is either propagated or excluded by an explicit kind test on "
              "that path - never dropped by optional/or_else/unwrap_or/map_err; optional() wraps no such parser. "
              "C08-V: the Value delivered is exactly the taken span. C08-R: run answers Incomplete silently with the "
-             "input unchanged and starts every call at the root."
+             "input unchanged - on every parse-error path that has not excluded Incomplete - and starts every call at the root; run:resume-keeps-path: the header path of the units already executed survives the resumption of a message (open finding F9)."
              " C08-PR: the contracts of the parser combinators the skeleton builds on are read from their bodies - satisfy (accept first byte iff pred / soft error / Incomplete on empty), take_while (never fails; longest prefix, position() form or counting-loop form), optional (never fails; Some(value) or input untouched), tag(b) = satisfy(== b).")
 
 
@@ -188,11 +188,34 @@ def rule_R(ck, lib):
     n = 0
     for x in rs.exits:
         d = rs.classify(x)
-        if d.get("has_parse") and d.get("parse_err") and d.get("incomplete"):
+        # every path on which parse failed and Incomplete is not excluded (tested false) - also one that does not test it
+        if d.get("has_parse") and d.get("parse_err") and d.get("incomplete") is not False:
             n += 1
-            ck.judge(not d["handle_calls"] and x.kind in ("return", "err") and x.value == rs.input_arg, "C08-R", "run:incomplete-silent",
-                     "Incomplete: nothing reported, input kept for the caller", "run does not answer Incomplete silently with the unchanged input")
+            ck.judge(not d["handle_calls"] and x.kind in ("return", "err") and x.value == rs.input_arg, "C08-R", "run:incomplete-silent" + ("" if d.get("incomplete") else ":untested#%d" % n),
+                     "Incomplete: nothing reported, input kept for the caller",
+                     "run does not answer Incomplete silently with the unchanged input%s" % ("" if d.get("incomplete") else " (a parse-error path that never tests for Incomplete reports / moves on)"),
+                     data=pathsum.show_exit(x)[:1000])
     ck.floor("C08-R", "Incomplete paths of run", n, 1)
+    # A unit that is answered Incomplete is offered again by the caller and then parsed by a *new* call of run, which
+    # starts at the root. That is the same resolution only if the path in force when the unit was first tried is the root
+    # too - i.e. no earlier unit of the same message has moved it - or if run hands the path back to its caller.
+    if rs.path_id is not None:
+        values = []
+        for x in rs.exits:
+            if x.kind == "backedge" and x.extra == rs.loop_site:
+                values.append((x.env.get(rs.path_id), x))
+        moved = [(v, x) for (v, x) in values if v is not None and not runsum.is_root(v) and v != rs.path_arg]
+        handed_back = False
+        for x in rs.exits:
+            d = rs.classify(x)
+            if d.get("has_parse") and d.get("parse_err") and d.get("incomplete") and x.value is not None:
+                if any(u == rs.path_arg for u in pathsum.subterms(x.value)):
+                    handed_back = True
+        ck.judge(not moved or handed_back, "C08-R", "run:resume-keeps-path",
+                 "a unit retried after Incomplete is resolved under the same path" + (" (the path is handed back to the caller)" if handed_back else " (the path is always the root there)"),
+                 "a unit answered Incomplete (a string or block whose payload contains the newline at which process called run) is retried by a new call of run at the ROOT, "
+                 "but when it was first tried the path could be `%s` (set by an earlier unit of the same message): streamed, `A:B;C 'x\\ny'` resolves C at the root instead of under A"
+                 % (show_term(moved[0][0]) if moved else "?"), data=pathsum.show_exit(moved[0][1])[:1200] if moved else None)
     for st in rs.ps.loops.get(rs.loop_site, {"entry": []})["entry"]:
         v = st.env.get(rs.path_id)
         ck.judge(v is not None and runsum.is_root(v), "C08-R", "run:restart-at-root", "every run call starts at the root", "run does not start at the root")
